@@ -84,6 +84,17 @@ class ChildCrashed(Exception):
         self.signal = status & 0x7f
         self.exit_code = (status >> 8) & 0xff
 
+    def __reduce__(self):
+        return (ChildCrashed, (self.status,))
+
+
+def _crash_result(prop, signal, where):
+    st = new_stats()
+    v = Violation(property=prop.id, oracle='process_crash',
+                  message=f'the process executing the run died with signal {signal} ({where})',
+                  signature={'signal': signal})
+    return {'violations': [v], 'stats': st, 'log_digest': f'crash-{signal}'}
+
 
 def isolated(fn, *args, wall_cap=None):
     """run fn(*args) in a freshly forked child of this (pristine: it never parses
@@ -129,7 +140,16 @@ def run_one(prop, seed, index, tier, options):
     returns (spec, result)"""
     cap = options.get('run_wall_cap', 120)
     if getattr(prop, 'isolate', True):
-        spec = isolated(prop.generate, seed, index, tier, options, wall_cap=cap)
+        try:
+            spec = isolated(prop.generate, seed, index, tier, options, wall_cap=cap)
+        except ChildCrashed as e:
+            if not e.signal:
+                raise env.HarnessError(f'generation of run {index} exceeded its wall cap of {cap}s or failed '
+                                       f'(exit code {e.exit_code})')
+            # the code under test died during the dry runs that generation performs (budget probing):
+            # the replay regenerates the run, which is a pure function of (seed, index, tier)
+            spec = {'prop': prop.id, 'regenerate': [seed, index, tier, options]}
+            return spec, _crash_result(prop, e.signal, 'during the dry runs of run generation')
         return spec, execute_spec(prop, spec, cap)
     faulthandler.dump_traceback_later(cap, exit=True)
     try:
@@ -139,7 +159,19 @@ def run_one(prop, seed, index, tier, options):
         faulthandler.cancel_dump_traceback_later()
 
 
+def _regen_and_execute(prop, spec):
+    seed, index, tier, options = spec['regenerate']
+    return prop.execute(prop.generate(seed, index, tier, options))
+
+
 def execute_spec(prop, spec, cap=120, executor_mode=None):
+    if spec.get('regenerate'):
+        try:
+            return isolated(_regen_and_execute, prop, spec, wall_cap=cap)
+        except ChildCrashed as e:
+            if e.signal:
+                return _crash_result(prop, e.signal, 'during the dry runs of run generation')
+            raise env.HarnessError(f'run exceeded its wall cap of {cap}s or the child failed (exit code {e.exit_code})')
     if not getattr(prop, 'isolate', True):
         return prop.execute(spec) if executor_mode is None else prop.execute(spec, executor_mode)
     try:
@@ -149,11 +181,7 @@ def execute_spec(prop, spec, cap=120, executor_mode=None):
     except ChildCrashed as e:
         if e.signal:
             # the code under test killed its process: that is an observation, not a harness failure
-            st = new_stats()
-            v = Violation(property=prop.id, oracle='process_crash',
-                          message=f'the process executing the run died with signal {e.signal}',
-                          signature={'signal': e.signal})
-            return {'violations': [v], 'stats': st, 'log_digest': f'crash-{e.signal}'}
+            return _crash_result(prop, e.signal, 'while executing the recorded operations')
         raise env.HarnessError(f'run exceeded its wall cap of {cap}s or the child failed (exit code {e.exit_code})')
 
 
@@ -296,6 +324,8 @@ def shrink(prop_name, spec, target, budget_s=60):
     prop = props.get(prop_name)
     t0 = time.time()
     best = spec
+    if spec.get('regenerate'):
+        return spec, 0      # the run died while being generated: the replay regenerates it, nothing to minimise
     improved = True
     steps = 0
     while improved and time.time() - t0 < budget_s:
